@@ -224,6 +224,52 @@ def _col_dict():
     return st.sampled_from(["py:float", "py:float", "float64", "float32"]).flatmap(one)
 
 
+def _col_dict_other():
+    """dict columns whose values are not reals: ints (small and beyond 2**53), bools, None, numeric text, mixtures."""
+    kinds = {
+        "int": st.one_of(st.integers(-9, 9), st.integers(-(2**31), 2**31)),
+        "bigint": st.one_of(st.integers(2**53 + 1, 2**63 - 1), st.integers(-(2**63), -(2**53) - 1)),
+        "bool": st.booleans(),
+        "none": st.none(),
+        "numstr": st.sampled_from(["3.5", "0", "-1", "1e3", "nan", "7"]),
+        "float": st.floats(allow_nan=False, allow_infinity=False, width=32),
+    }
+
+    def tagged(names):
+        return st.sampled_from(names).flatmap(lambda k: st.fixed_dictionaries({"k": st.just(k), "v": kinds[k]}))
+
+    def col(names):
+        d = st.dictionaries(st.sampled_from(["a", "b", "c", "U235", "k"]), tagged(names), min_size=1, max_size=4)
+        return st.fixed_dictionaries(
+            {"cls": st.just("dict-other"), "dt": st.just("dict:" + "+".join(names)), "sameKeys": st.sampled_from([True, True, False]),
+             "e": st.lists(d, min_size=1, max_size=8)}
+        )
+
+    return _weighted((4, col(["int"])), (3, col(["int", "bigint"])), (2, col(["bool"])), (2, col(["int", "float"])), (1, col(["int", "none"])),
+                     (1, col(["float", "numstr"])), (1, col(["numstr"])), (1, col(["int", "bool", "float"])))
+
+
+def _mk_dict_other(col, n):
+    ents = col["e"]
+    keys = sorted(ents[0])
+    uniform_int = col["dt"] in ("dict:int", "dict:int+bigint")
+    res = []
+    for i in range(n):
+        e = ents[i % len(ents)]
+        if col["sameKeys"]:  # every object has the first entry's keys (values cycled): no key is ever missing
+            vals = [e[k] for k in sorted(e)]
+            e = {k: vals[j % len(vals)] for j, k in enumerate(keys)}
+        d = {}
+        for k in sorted(e):
+            v = e[k]["v"]
+            if e[k]["k"] == "bigint" and not (uniform_int and col["sameKeys"]):
+                # a missing key (NaN) or a real neighbour makes the documented storage float64: keep ints exact there
+                v = v % (2**53)
+            d[k] = v
+        res.append(d)
+    return res
+
+
 _MIX_DT = ["py:int", "py:float", "py:bool", "int8", "int16", "int32", "int64", "uint8", "float16", "float32", "float32", "float64"]
 
 
@@ -285,7 +331,7 @@ def column_strategy(classes=None):
             fn, dts = per_dt[name]
             s = st.sampled_from(dts).flatmap(fn)
         elif name == "dict":
-            s = _col_dict()
+            s = _weighted((3, _col_dict()), (2, _col_dict_other()))
         elif name == "mixed":
             s = _col_mixed()
         else:
@@ -410,6 +456,8 @@ def build_column(col, n):
     """Values (one per object) described by ``col``; entries are cycled to length ``n``."""
     np = _np()
     cls, dt, ents = col["cls"], col["dt"], col["e"]
+    if cls == "dict-other":
+        return _mk_dict_other(col, n)
     out = []
     for i in range(n):
         e = ents[i % len(ents)]
@@ -737,7 +785,7 @@ def norm_entry(v, among_sequences):
     if isinstance(v, dict):
         items = []
         for k, x in v.items():
-            nx = _norm_scalar(x)
+            nx = ("none",) if x is None else _norm_scalar(x)  # only NaN means "key absent"
             if nx is not UNSET:
                 items.append((str(k), nx))
         return ("dict", tuple(sorted(items)))
@@ -827,6 +875,19 @@ def _read_failure(out, layer, values, route, exc):
         raise exc
     sig = known_shape(values, route) or "%s/read-exception/%s" % (layer, where)
     out.fail(sig, "reading back %r raised %s: %s" % (values, type(exc).__name__, str(exc)[:200]))
+
+
+def _strict_kind(col, values):
+    """Is the numeric kind part of the oracle for this column?  Not for mixed-kind columns.  For dictionaries whose
+    values are not reals (packSpecialData documents Dict[str, float]; a missing key is stored as NaN, i.e. as reals):
+    only when every value has one kind and no key is missing anywhere - then armi keeps ints ints and bools bools."""
+    if col["cls"].startswith("mixed"):
+        return False
+    if col["cls"] == "dict-other":
+        ds = [v for v in values if isinstance(v, dict)]
+        kinds = {_kind_of_scalar(x) for d in ds for x in d.values() if x is not None}
+        return len(kinds) == 1 and len({tuple(sorted(d)) for d in ds}) == 1
+    return True
 
 
 def _judge(out, layer, values, read, route, strict):
@@ -1065,7 +1126,7 @@ def sentinel_execute(case):
         except Exception as exc:  # noqa: BLE001
             _read_failure(out, "l0_sentinel", values, "object", exc)
             return out
-    _judge(out, "l0_sentinel", values, read, "object", strict=not col["cls"].startswith("mixed"))
+    _judge(out, "l0_sentinel", values, read, "object", strict=_strict_kind(col, values))
     return out
 
 
@@ -1133,7 +1194,7 @@ def pack_execute(case):
     out.nontrivial = len(tags) >= 2
     if _excluded(out, col, values, route, case):
         return out
-    strict = not col["cls"].startswith("mixed")
+    strict = _strict_kind(col, values)
     _attempt(out, col, f)
 
     def rejected():
@@ -1314,7 +1375,7 @@ def _l1_roundtrip(out, case, columns, flagvals):
         for name, col, values, default in columns:
             expect = [default if v is None else v for v in values]
             read = [c.p[name] for c in fresh]
-            _judge(out, "l1_database", expect, read, "db", strict=not col["cls"].startswith("mixed"))
+            _judge(out, "l1_database", expect, read, "db", strict=_strict_kind(col, expect))
         if want_flags is not None:
             got = [sorted(k for k, val in Flags.fields().items() if int(c.p.qFlags) & val) for c in fresh]
             out.check(got == want_flags, "l1_database/flag-names", lambda: "flags written %r read %r" % (want_flags, got))
@@ -1553,16 +1614,18 @@ def flags_strategy(tier):
     k = st.integers(1, 70)
     return st.fixed_dictionaries(
         {
-            "k": st.one_of(st.integers(1, 12), k),
+            # (armi's own Flags has 66 fields and plugin flags come after: bit positions >= 64 are the normal case)
+            "k": _weighted((2, st.integers(1, 12)), (1, k), (3, st.integers(65, 90))),
             "wperm": st.lists(st.integers(0, 1000), min_size=1, max_size=12),
             "rperm": st.one_of(st.none(), st.lists(st.integers(0, 1000), min_size=1, max_size=12)),
             "mode": st.sampled_from(["same-class", "same-order", "permuted", "permuted", "extended", "extended", "extended"]),
             "extra": st.integers(0, 12),
             "extraLate": st.booleans(),
-            "drop": st.lists(st.integers(0, 69), max_size=4),
+            "drop": st.lists(st.integers(0, 89), max_size=4),
             "wspec": _flag_spec(),
             "rspec": _flag_spec(),
-            "values": st.lists(st.one_of(st.integers(0, 2**70), st.integers(0, 255), st.integers(0, 6).map(lambda b: 1 << b)), min_size=1, max_size=12),
+            "values": st.lists(st.one_of(st.integers(0, 2**90), st.integers(0, 255), st.integers(0, 6).map(lambda b: 1 << b), st.integers(60, 89).map(lambda b: 1 << b),
+                                        st.tuples(st.integers(0, 2**20), st.integers(64, 89)).map(lambda t: t[0] | (1 << t[1]))), min_size=1, max_size=12),
         }
     )
 
@@ -1713,6 +1776,8 @@ def flags_execute(case):
     out.nontrivial = reordered and any(masks)
     if reordered:
         out.label("bit-positions-differ")
+        if any(m >> 64 for m in masks):
+            out.label("bit-positions-differ+value-with-bit>=64")
     packed, attrs = FlagSerializer._packImpl(data, W)
     out.check(packed.dtype == np.uint8 and packed.shape == (len(data), W.width()), "flags/packed-layout",
               lambda: "packed %r %r" % (packed.dtype, packed.shape))
